@@ -17,6 +17,7 @@ var c02Templates = []string{
 	"g(f(X), Y)", "g(Y, f(X))", "g(X, f(X))", "g(f(Y), f(k0))", "[X|Y]", "[k0, k1]", "[X, Y]", "[X|[Y]]", "[k0|X]", "[]",
 	"\"ab\"", "[a, b]", "[a|X]", "'.'(a, '.'(b, []))", "'.'(X, Y)", "[X, Y|Z]", "\"a\"", "[Z]", "g([X], Y)", "f(g(X, k0))",
 	"[a, b|X]", "\"abc\"", "g(X, g(Y, Z))", "g(g(X, Y), Z)", "[[X]|Y]", "f(_)",
+	"g(Y, Y)", "g(Z, f(Z))", "[Y, Y]", "[X, [a|X]]",
 }
 
 func c02Pair(inst int) (int, int) {
@@ -107,6 +108,15 @@ func VH_C02_pair(vm *VM, inst int) {
 	// unify_with_occurs_check/2
 	envOC, okOC := env0.unifyWithOccursCheck(t1, t2)
 	verify(okOC == rokOC, "unify_with_occurs_check: verdict differs from the reference")
+	// the predicates themselves (not only the environment's methods behind them)
+	pOC := vRunImpl(vm, NewAtom("unify_with_occurs_check").Apply(t1, t2), nil, 1, nil)
+	verify(pOC.status != "error" && (pOC.status == "stopped") == rokOC, "unify_with_occurs_check/2 (the predicate): verdict differs from the reference")
+	if !(rok && !rokOC) {
+		pU := vRunImpl(vm, xEqual.Apply(t1, t2), nil, 1, nil)
+		verify(pU.status != "error" && (pU.status == "stopped") == rok, "=/2 (the predicate): verdict differs from the reference")
+		pN := vRunImpl(vm, NewAtom("\\=").Apply(t1, t2), nil, 1, nil)
+		verify(pN.status != "error" && (pN.status == "stopped") == !rok, "\\=/2 (the predicate): verdict differs from the reference")
+	}
 	if okOC {
 		verify(bAnd(vIdenticalV(vPlain(t1, envOC), vPlain(t2, envOC)), true), "unify_with_occurs_check: sides not identical after success")
 	}
